@@ -158,11 +158,18 @@ def check_losses(ctx, idx):
 
 def check_optimizers(ctx):
     rng = ctx.rng
+    # configured (non-default) clipping thresholds and learning rates: the optimiser must use the
+    # CONFIGURED values
+    mg = {k_: float(rng.choice(v_)) for k_, v_ in {"PPO": [0.5, 0.8, 2.0], "A2C": [0.5, 0.3, 1.5],
+                                                   "REINFORCE": [0.5, 0.9, 3.0], "DQN": [10.0, 4.0, 0.7]}.items()}
     algos = {
-        "PPO": (PPO(max_grad_norm=0.5, learning_rate=3e-4), 0.5, 3e-4),
-        "A2C": (A2C(max_grad_norm=0.5, learning_rate=7e-4), 0.5, 7e-4),
-        "REINFORCE": (REINFORCE(max_grad_norm=0.5, learning_rate=3e-4), 0.5, 3e-4),
-        "DQN": (DQN(max_grad_norm=10.0, learning_rate=1e-4), 10.0, 1e-4),
+        "PPO": (PPO(max_grad_norm=mg["PPO"], learning_rate=3e-4), mg["PPO"], 3e-4),
+        "A2C": (A2C(max_grad_norm=mg["A2C"], learning_rate=7e-4), mg["A2C"], 7e-4),
+        "REINFORCE": (REINFORCE(max_grad_norm=mg["REINFORCE"], learning_rate=2e-4), mg["REINFORCE"], 2e-4),
+        "DQN": (DQN(max_grad_norm=mg["DQN"], learning_rate=1e-4), mg["DQN"], 1e-4),
+        "PPO'": (PPO(max_grad_norm=1.7, learning_rate=1e-3), 1.7, 1e-3),
+        "A2C'": (A2C(max_grad_norm=0.25, learning_rate=5e-4), 0.25, 5e-4),
+        "REINFORCE'": (REINFORCE(max_grad_norm=2.5, learning_rate=3e-4), 2.5, 3e-4),
     }
     for name, (algo, max_norm, lr) in algos.items():
         for rep in range(ctx.budget(3, 10)):
